@@ -45,6 +45,25 @@ def targeted(ctx, T):
         for c in (ctxs if ctx.tier == "thorough" else rng.sample(ctxs, 4)):
             for sc in (False, True):
                 out.append((c % ("<%s>x</%s>y<p>z" % (n, n)), None, sc, True))
+    # 4. parser-level pointers and flags that must be (re)set at exactly the right moment: form element pointer
+    #    (an ignored </form> still clears it), frameset-ok flag, head pointer after </head>
+    scopers = ["<table><tr><td>", "<table><tr><th>", "<table><caption>", "<object>", "<applet>", "<marquee>", "<svg><foreignObject>",
+               "<svg><desc>", "<svg><title>", "<math><mi>", "<math><annotation-xml encoding='text/html'>", "<template>", "<button>",
+               "<div>", "<p>", "<select>", "<table>", "<table><tr>", "<b><i>", "<ul><li>", ""]
+    for sc_ in scopers:
+        for first in ("<form id=a>", "<form id=a><div>", "<div><form id=a>", "<table><form id=a>", ""):
+            for endt in ("</form>", "</form></form>", "</FORM>", ""):
+                for second in ("<form id=b><input>", "<table><form id=b><input name=n>", "<form id=b>x</form><form id=c>y"):
+                    out.append((first + sc_ + endt + second + "t", rng.choice([None, None, "div", "form"]), False, True))
+    for n in names[:160]:
+        for pre in ("", "<p>", " ", "<!--c-->"):
+            out.append((pre + "<%s></%s><frameset><frame></frameset>" % (n, n), None, rng.random() < 0.3, True))
+    out.append(("<input type=hidden><frameset>", None, False, True))
+    out.append(("<input type=HiDdEn><frameset>", None, False, True))
+    out.append(("<input type=text><frameset>", None, False, True))
+    for n in ("title", "meta", "script", "style", "base", "link", "noframes", "template", "noscript", "basefont", "bgsound", "command"):
+        out.append(("<head></head><%s>x</%s><p>y" % (n, n), None, False, True))
+        out.append(("<head></head> <%s a=b><%s>x</%s>" % (n, n, n), None, True, True))
     return out
 
 
